@@ -20,6 +20,7 @@ import EmbitModel.Driver.PsbtX
 import EmbitModel.Driver.Slip39X
 import EmbitModel.Driver.ViewX
 import EmbitModel.Driver.SignWith
+import EmbitModel.Driver.SignWithViewBytes
 import EmbitModel.Driver.Cost
 import EmbitModel.Driver.LockX
 import EmbitModel.Driver.MiniscriptX
@@ -34,7 +35,7 @@ import EmbitModel.Driver.PsbtVerify
 -/
 open Embit.Driver
 
-def handlers : List (String → List String → Option String) := [handleTx, handleHash, handleSighash, handlePsbt, handleBip39, handleMiniscript, handleView, handleSigCheck, handleSign, handleAddr, handleSecp, handleSlip39, handleHeap, handleLock, handleKeys, handleDescriptor, handleLiquid, handleKeysX, handlePsbtX, handleSlip39X, handleViewX, handleSignWith, handleCost, handleLockX, handleMiniscriptX, handleHeapX, handleLiquidX, handlePyCurve, handleEcOps, handleHeapY, handlePsbtVerify]
+def handlers : List (String → List String → Option String) := [handleTx, handleHash, handleSighash, handlePsbt, handleBip39, handleMiniscript, handleView, handleSigCheck, handleSign, handleAddr, handleSecp, handleSlip39, handleHeap, handleLock, handleKeys, handleDescriptor, handleLiquid, handleKeysX, handlePsbtX, handleSlip39X, handleViewX, handleSignWith, handleCost, handleLockX, handleMiniscriptX, handleHeapX, handleLiquidX, handlePyCurve, handleEcOps, handleHeapY, handlePsbtVerify, handleSignWithViewBytes]
 
 def dispatch (line : String) : String :=
   match (line.splitOn " ").filter (· ≠ "") with
